@@ -99,6 +99,14 @@ def run(ctx):
             s = const_str(k) if k is not None else None
             ctx.require(s is not None, f'{Q}: non-literal key in kwargs construction')
             kw_map[s] = v
+    elif isinstance(kw_val, ast.Call) and dotted(kw_val.func) == 'dict' and len(kw_val.args) == 1 and isinstance(kw_val.args[0], ast.Call) \
+            and dotted(kw_val.args[0].func) == 'zip' and len(kw_val.args[0].args) == 2 and dotted(kw_val.args[0].args[1]) == key_var:
+        # table-driven: dict(zip(<tuple of option names>, <key>)) — the names are folded, the values are the key's elements
+        names_ = ctx.folder.eval_in(m, kw_val.args[0].args[0])
+        ctx.require(isinstance(names_, tuple) and all(isinstance(x, str) for x in names_) and len(names_) == len(key_elts),
+                    f'{Q}: dict(zip(…)) over a name table that does not fold to {len(key_elts)} option names')
+        for nm_, el in zip(names_, key_elts):
+            kw_map[nm_] = el
     else:
         ctx.require(False, f'{Q}: unrecognised construction of {kwargs_var}: {norm(kw_val)[:60]}')
 
@@ -166,6 +174,22 @@ def run(ctx):
                 val = a.value
                 subs = [k_ for k_, _ in str_subscripts(val, p_kw)] if (p_kw and isinstance(val, ast.Subscript)) else []
                 helper_stores.append((f'self.{a.targets[0].attr}', subs[0] if subs else norm(val), a))
+
+    # table-driven stores: `for name in <tuple of option names>: setattr(self, f'_{name}', <kwargs>[name])`
+    for lp in [x for x in walk_shallow(new) if isinstance(x, ast.For) and isinstance(x.target, ast.Name)]:
+        names_ = ctx.folder.eval_in(m, lp.iter)
+        if not (isinstance(names_, tuple) and names_ and all(isinstance(x, str) for x in names_)):
+            continue
+        var = lp.target.id
+        for c in [x for st_ in lp.body for x in ast.walk(st_) if isinstance(x, ast.Call) and dotted(x.func) == 'setattr' and len(x.args) == 3]:
+            if dotted(c.args[0]) != 'self':
+                continue
+            val = c.args[2]
+            from_kw = isinstance(val, ast.Subscript) and dotted(val.value) == kwargs_var and dotted(val.slice) == var
+            for nm_ in names_:
+                attr = ctx.folder.eval_in(m, c.args[1], {var: nm_})
+                if isinstance(attr, str):
+                    helper_stores.append((f'self.{attr}', nm_ if from_kw else norm(val), c))
 
     # slots and properties
     slot_of: dict[str, str] = {}
